@@ -22,7 +22,37 @@ def _affinity(g1, g2):
     return instrument.original(A.compute_affinity)(g1, g2)
 
 
-def judge(ctx, spec):
+def judge_after_list_edit(ctx, spec, pair=None):
+    """The caller evaluates, then corrects one clip annotation by REPLACING it in the very list it passed (same list
+    object, same length), and evaluates again: the result follows the list's current content."""
+    from soundevent.evaluation.tasks import sound_event_detection
+
+    cps, cas, tags, idx = E.build(spec)
+    try:
+        with warnings.catch_warnings():
+            warnings.simplefilter("ignore")
+            sound_event_detection(cps, cas, tags)
+    except Exception:
+        return
+    if pair is None:
+        r = E.corrected_annotation(spec, ctx.rng)
+        if r is None:
+            return
+        spec2, ci = r
+        spec2["_after_list_edit_of"] = {"spec": spec, "ci": ci}          # (for replay: the call history is part of the case)
+    else:
+        spec2, ci = pair
+    idx2 = E.replace_annotation_in_list(cas, spec2, ci)
+    if idx2 is None:
+        return
+    ctx.mon("after_list_edited_in_place")
+    n0 = len(ctx.violations)
+    judge(ctx, spec2, built=(cps, cas, tags, idx2))
+    for v in ctx.violations[n0:]:
+        v["key"] = v["key"] + ":after_input_list_edited_in_place"
+
+
+def judge(ctx, spec, built=None):
     from soundevent.evaluation.tasks import sound_event_detection
 
     vocab = spec["vocab"]
@@ -30,7 +60,7 @@ def judge(ctx, spec):
     if n_events == 0:
         ctx.ood("no_evaluated_sound_event")
         return
-    cps, cas, tags, idx = E.build(spec)
+    cps, cas, tags, idx = built or E.build(spec)
     try:
         with warnings.catch_warnings():
             warnings.simplefilter("ignore")
@@ -157,10 +187,16 @@ def run(ctx):
         geomless = any(e.get("geom") is None for c in spec["clips"] for e in c["events"])
         ctx.case(("random", f"vocab{len(spec['vocab'])}", f"clips{len(spec['clips'])}", "geomless" if geomless else "allgeom", "both" if both else "onesided"), spec, nontrivial=both)
         judge(ctx, spec)
+        if ctx.every(spec, 4):
+            judge_after_list_edit(ctx, spec)
 
 
 def replay(ctx, w):
     c07.install()
     s = w["spec"]
     ctx.case("replay", s)
+    if "_after_list_edit_of" in s:
+        h = s["_after_list_edit_of"]
+        judge_after_list_edit(ctx, h["spec"], pair=(s, h["ci"]))
+        return
     judge(ctx, s)
